@@ -300,6 +300,9 @@ def run(ctx, rep, r1="R10.1", r2="R10.2", only_transform=False):
     c19.r197(ctx, Renamed(rep, to="R10.3"), ctx.func(c19.OPT_FUNC), ctx.func(T.MINIMIZE))
     from .. import spaces
     spaces.check_reduced_operands(ctx, Renamed(rep, to="R10.3"), "R10.3")
+    rep.rule("R10.4", "regrouping linear constraints does not lose rows: the inequality and equality blocks of LinearConstraints are built under independent guards (see C17 R17.1)")
+    from . import c17
+    c17.r171(ctx, Renamed(rep, to="R10.4"))
     # ---- R10.2 -----------------------------------------------------------------
     from .c08 import r84
     r84(ctx, rep, rule=r2)
